@@ -248,6 +248,9 @@ class PubkeyIndex(Index):
 
     def convert(self, event: Event):
         yield self.to_key(event.pubkey)
+        # NIP-26: an authors filter also matches the delegator
+        for delegator in get_delegators(event):
+            yield self.to_key(delegator)
 
 
 class TagIndex(Index):
@@ -289,6 +292,8 @@ class AuthorKindIndex(Index):
 
     def convert(self, event: Event):
         yield self.to_key((event.pubkey, event.kind))
+        for delegator in get_delegators(event):
+            yield self.to_key((delegator, event.kind))
 
 
 class FTSIndex(Index):
@@ -556,6 +561,9 @@ class WriterThread(threading.Thread):
                     if event_id == saved_id:
                         continue
                     candidate = decode_event(get_event_data(txn, event_id))
+                    if candidate.pubkey != event.pubkey:
+                        # indexed under this author as its delegator
+                        continue
                     if d_tag is not None:
                         if get_d_tag(candidate) != d_tag:
                             continue
@@ -582,7 +590,7 @@ class WriterThread(threading.Thread):
                 for event_id in scanner:
                     if event_id in ids:
                         candidate = decode_event(get_event_data(txn, event_id))
-                        if candidate:
+                        if candidate and candidate.pubkey == event.pubkey:
                             self._delete_event(txn, candidate, log)
                             counter["count"] += 1
 
@@ -988,11 +996,13 @@ def compile_match_from_query(query_items: tuple):
                 )
         elif key == "authors":
             col = FIELDS_TO_COLUMNS["pubkey"]
+            tagcol = FIELDS_TO_COLUMNS["tags"]
+            delegated = f"any(t[0] == 'delegation' and len(t) > 1 and t[1] in {value!r} for t in et[{tagcol}])"
             if all(len(v) == 64 for v in value):
-                filter_clauses.add(f"(et[{col}].hex() in {value!r})")
+                filter_clauses.add(f"(et[{col}].hex() in {value!r} or {delegated})")
             else:
                 filter_clauses.add(
-                    f"any(et[{col}].hex().startswith(v) for v in {value!r})"
+                    f"(any(et[{col}].hex().startswith(v) for v in {value!r}) or {delegated})"
                 )
         elif key == "kinds":
             col = FIELDS_TO_COLUMNS["kind"]
@@ -1214,6 +1224,23 @@ def check_indexable(event: Event):
             pass
     except (TypeError, AttributeError):
         raise StorageError("invalid: bad tags")
+
+
+def get_delegators(event: Event) -> list:
+    """
+    Return the (hex) pubkeys named in the event's NIP-26 delegation tags
+    """
+    delegators = []
+    for tag in event.tags:
+        if tag[0] == "delegation" and len(tag) > 1 and isinstance(tag[1], str):
+            if len(tag[1]) == 64 and tag[1] != event.pubkey:
+                try:
+                    bytes.fromhex(tag[1])
+                except ValueError:
+                    continue
+                if tag[1] not in delegators:
+                    delegators.append(tag[1])
+    return delegators
 
 
 def get_d_tag(event: Event) -> str:
